@@ -19,7 +19,8 @@ STR_POOL = ['', 'a', 'true', 'null', '1', '1e5', '0x1F', '1:30', 'a: b',
             ' lead', 'trail ', 'é', '\\', 'a,b', '2018-01-01']
 INT_POOL = [0, 1, -1, 2 ** 31, 2 ** 53 + 1, -2 ** 63, 10 ** 20]
 KEY_POOL = ['a', 'b', '', '1', 'true', 'a b', 'k:v', 'é']
-WRITERS = ['put', 'create', 'update', 'put_existing', 'put_check_content']
+WRITERS = ['put', 'create', 'update', 'put_existing', 'put_check_content',
+           'ensure_exists', 'ensure_exists_existing']
 
 
 def subharnesses(tier):
@@ -114,6 +115,12 @@ def _write(zkutils, zk, tree, writer, path, obj):
     elif writer == 'put_existing':
         tree.seed(path, b'old: 1')
         zkutils.put(zk, path, obj)
+    elif writer == 'ensure_exists':
+        zkutils.ensure_exists(zk, path, data=obj)
+    elif writer == 'ensure_exists_existing':
+        # how cellsync publishes lists: the node already holds an older value
+        tree.seed(path, b'["srv1", "srv2"]')
+        zkutils.ensure_exists(zk, path, data=obj)
     elif writer == 'put_check_content':
         tree.seed(path, b'{"old": 1}')
         zkutils.put(zk, path, obj, check_content=True)
